@@ -189,6 +189,95 @@ def _s_cases():
                            'cwd': 'case' if i % 2 else 'elsewhere'}
 
 
+def _d_cases():
+    """D: a PATH symbol (relative to a home directory, or absolute) that reaches the suffix of a creating argument
+    through 1..4 string definitions: a symbol used as a path component must be a string all the way down - otherwise the
+    suffix would be an absolute path and the object would be created outside the sandbox.  Controls: strings all the
+    way down (must PASS, created under the root)."""
+    i = 0
+    for base in ('home', 'act-home', 'here', 'abs-outside', 'string'):
+        for depth in (1, 2, 3, 4):
+            for instr in ('file', 'dir', 'copy', 'file-lead'):
+                for rel in ('-rel-act', '-rel-tmp', ''):
+                    i += 1
+                    if i % 2 and depth in (1, 3) and base != 'string':
+                        continue  # half of the odd depths: keeps the quick tier small
+                    yield {'t': 'D', 'base': base, 'depth': depth, 'instr': instr, 'rel': rel,
+                           'phase': ('setup', 'before-assert', 'cleanup')[i % 3]}
+
+
+def run_d(case, ctx):
+    ses = ctx.get_session()
+    d = os.path.realpath(ses.new_case_dir({'src.txt': 'source text', 'victim/keep.txt': 'k'}))
+    outside = os.path.join(ctx.scratch, 'c12-outside-%d' % os.getpid())
+    os.makedirs(outside, exist_ok=True)
+    base = case['base']
+    first = {'home': 'def path P0 = -rel-home victim', 'act-home': 'def path P0 = -rel-act-home victim',
+             'here': 'def path P0 = -rel-here victim', 'abs-outside': 'def path P0 = ' + outside,
+             'string': 'def string P0 = plain-dir'}[base]
+    defs = [first]
+    x = 'P0'
+    for k in range(1, case['depth'] + 1):
+        defs.append('def string S%d = %s' % (k, ['@[%s]@/l%d', 'p%d-@[%s]@'][0] % (x, k)))
+        x = 'S%d' % k
+    rel = (case['rel'] + ' ') if case['rel'] else ''
+    instr = {'file': 'file %s@[%s]@/x.txt = "hello"' % (rel, x),
+             'dir': 'dir %s@[%s]@/newdir' % (rel, x),
+             'copy': 'copy -rel-home src.txt %s@[%s]@' % (rel, x),
+             'file-lead': 'file %sok/@[%s]@/y.txt = "hello"' % (rel, x)}[case['instr']]
+    L = ['[setup]'] + defs
+    if case['phase'] == 'setup':
+        L += [instr, '[act]', '$ true']
+    else:
+        L += ['[act]', '$ true', '[%s]' % case['phase'], instr]
+    text = '\n'.join(L) + '\n'
+    with open(os.path.join(d, 't.case'), 'w') as f:
+        f.write(text)
+    before = snapshot_tree(d)
+    before_out = snapshot_tree(outside)
+    r = ses.run(['--keep', os.path.join(d, 't.case')], cwd=d, mode='keep')
+    after = snapshot_tree(d)
+    after_out = snapshot_tree(outside)
+    viol, inconc = [], []
+    ident = first_line(r.err)
+    label = 'D %s through %d string definition(s), %s %s in [%s]' % (base, case['depth'], case['instr'],
+                                                                      case['rel'] or '(default relativity)', case['phase'])
+
+    def bad(msg):
+        viol.append({'what': 'C12 %s: %s' % (label, msg),
+                     'detail': {'case_text': text, 'observed': {'rc': r.rc, 'ident': ident, 'stderr': r.err[:800]}}})
+
+    if r.timed_out:
+        inconc.append('watchdog')
+    elif r.exc is not None:
+        bad('exception escaped MainProgram.execute')
+    else:
+        ctx.count('c12.creation_verdicts_compared')
+        ctx.count('c12.home_snapshots_compared')
+        ctx.count('c12.path_symbol_in_suffix_checks')
+        hd = _diff(before, after)
+        od = _diff(before_out, after_out)
+        if any(hd.values()):
+            bad('home directories modified: %r' % (hd,))
+        if any(od.values()):
+            bad('a directory outside the sandbox was modified: %r' % (od,))
+        if base == 'string':
+            if not (r.rc == 0 and ident == 'PASS'):
+                bad('strings all the way down are a legal path suffix: must PASS, got %s/%r' % (ident, r.rc))
+        else:
+            if not (r.rc == 65 and ident == 'VALIDATION_ERROR'):
+                bad('a path symbol reached through string definitions inside the suffix of a creating argument must be '
+                    'rejected before execution (VALIDATION_ERROR/65), got %s/%r' % (ident, r.rc))
+            if r.new_tmp_entries or any(e[0] == 'tempfile.mkdtemp' for e in r.audit):
+                bad('a sandbox was created although the case must be rejected before execution')
+    if base == 'string' and r.out.strip() and os.path.isdir(r.out.strip()):
+        pass
+    ses.clean_tmp()
+    ses.drop(d)
+    return {'classes': [('D', base, case['depth'], case['instr'], case['rel'], case['phase'])], 'viol': viol,
+            'inconclusive': inconc}
+
+
 def _f_cases():
     """F: what one instruction accepts must not depend on which instructions were read before it, in the same case
     file - run in a FRESH interpreter, so that nothing read by earlier cases of this worker can mask the order.
@@ -329,6 +418,8 @@ def run_e(case, ctx):
 
 def cases(tier, seed):
     for c in _s_cases():
+        yield c
+    for c in _d_cases():
         yield c
     for c in _f_cases():
         yield c
@@ -928,6 +1019,8 @@ def run_s(case, ctx):
 def run_case(case, ctx):
     if case['t'] == 'S':
         return run_s(case, ctx)
+    if case['t'] == 'D':
+        return run_d(case, ctx)
     if case['t'] == 'F':
         return run_f(case, ctx)
     if case['t'] == 'E':
